@@ -282,8 +282,7 @@ func (h *harness) addMustReject(src, how string, r presult) {
 		fmt.Sprintf("must-reject %s src=%q -> accepted=%v", how, src, r.accepted()), "must-reject:"+how, true)
 }
 
-// bracket structure of a token list: 0 balanced, 1 unbalanced, 3 unknown, 2 the only unclosed brackets
-// are switch bodies (otto accepts a switch whose '}' is missing at end of input)
+// bracket structure of a token list: 0 balanced, 1 unbalanced, 3 unknown
 func brackets(ts []tok) int {
 	var st []byte
 	for _, t := range ts {
@@ -298,18 +297,14 @@ func brackets(ts []tok) int {
 		}
 		switch t.s {
 		case "(", "[", "{":
-			c := t.s[0]
-			if t.sw {
-				c = 's'
-			}
-			st = append(st, c)
+			st = append(st, t.s[0])
 		case ")", "]", "}":
 			if len(st) == 0 {
 				return 1
 			}
 			o := st[len(st)-1]
 			st = st[:len(st)-1]
-			if (t.s == ")" && o != '(') || (t.s == "]" && o != '[') || (t.s == "}" && o != '{' && o != 's') {
+			if (t.s == ")" && o != '(') || (t.s == "]" && o != '[') || (t.s == "}" && o != '{') {
 				return 1
 			}
 		}
@@ -317,12 +312,7 @@ func brackets(ts []tok) int {
 	if len(st) == 0 {
 		return 0
 	}
-	for _, c := range st {
-		if c != 's' {
-			return 1
-		}
-	}
-	return 2
+	return 1
 }
 
 func balanced(ts []tok) bool { return brackets(ts) == 0 }
@@ -397,9 +387,16 @@ var pinnedProbes = []pinned{
 	{"x = {1e+: 1}", 16, false, true},
 	{"x = /a/ g", 15, false, true},
 	{"x = /a/\ng", 15, false, true},
-	{"switch(1){", 14, false, true},
-	{"switch (a) { case 1: x; switch (b) { default: ", 14, false, true},
+	// fixed finding C04-switch-unterminated (ceb8c0d): regression cases, the ES5 verdict is expected now
+	{"switch(1){", 14, false, false},
+	{"switch (a) { case 1: x; switch (b) { default: ", 14, false, false},
+	{"L1: if (x) switch (a) { case 1: x; ", 14, false, false},
 	{"{ switch(1){", 14, false, false},
+	// repaired parser defects that the generator used to avoid (C03 side): valid ES5, must be accepted
+	{"x = a.if\ny = 2", 17, true, true},
+	{"if (a) debugger\n; else x", 17, true, true},
+	{"x\ra\n", 17, true, true},
+	{"for (x = a ? b in c : d;;);", 17, true, true},
 }
 
 var pinnedSources = []string{
@@ -573,18 +570,8 @@ func main() {
 				i := r.Intn(len(g.t))
 				src = render(r, g.t[:i], false)
 				res := parseGuard(src, 0, nil)
-				switch brackets(g.t[:i]) {
-				case 1:
+				if brackets(g.t[:i]) == 1 { // includes a switch body cut off by the end of input (fixed: ceb8c0d)
 					h.addMustReject(src, how, res)
-				case 2: // ends inside a switch body at clause level, or right after "case"/"default"/their expression
-					last, hasDo := g.t[i-1], false
-					for _, t := range g.t[:i] {
-						hasDo = hasDo || t.s == "do"
-					}
-					if (last.s == "{" && last.sw) || (last.s == ";" && !hasDo) {
-						env.Add(fmt.Sprintf("CPinned 14 false true %s", Cbool(res.accepted())),
-							fmt.Sprintf("unterminated-switch src=%q -> accepted=%v", src, res.accepted()), "unterminated-switch", true)
-					}
 				}
 				h.addRobust(src, how, res)
 				if res.accepted() {
